@@ -154,6 +154,19 @@ CHECKS["C03"] = dict(
          "negation over x y z, literals and two globals.",
     design_ref="DESIGN.md section 5 C03")
 
+CHECKS["C04"] = dict(
+    technique="TLA+ transition system KgMachine.tla over a closed statement alphabet, explored by TLC (frame condition as action "
+              "property, behaviours emitted); every behaviour replayed step by step into two real interpreters (A: whole history, "
+              "B: fresh + specification pre-state) with result and full variable snapshot compared to the specification's",
+    text="History-independence and value semantics are decided by executing each of ~2.7k (thorough ~40k) statement histories twice: "
+         "an interpreter that carries the whole history (parse cache, compiled caches, NumPy buffers possibly shared between "
+         "variables, literals inside function bodies) and a fresh interpreter per step loaded with the specification's pre-state "
+         "must both give the specification's value and leave exactly the specification's environment.",
+    note="Trusted: TLC, KgEval/KgVerbs transcription, the snapshot of interpreter variables. Alphabet: 29 statements over 5 variables "
+         "(assign, alias, amend of copies / takes / reverses / reshapes / transposes / rows, join, drop, functions with list and "
+         "dictionary literals, +/). Module switches and tables not included yet.",
+    design_ref="DESIGN.md section 5 C04")
+
 NOT_YET = {}
 
 
